@@ -111,7 +111,10 @@ class Report:
     def finish(self):
         known = load_known()
         kf = [k for k in known.get("findings", []) if k.get("property") == self.pid]
+        violated = {v.key().get("rule") for v in self.violations}
         for rname, r in sorted(self.rules.items()):
+            if rname in violated:
+                continue      # a rule may stop enumerating scenarios after its first violations
             if r["instances"] < r["min"]:
                 self.broke("rule %s matched %d instance(s), fewer than the %d confirmed by hand (%s) -- "
                            "an anchor vanished or the rule no longer recognises the code; re-confirm before trusting"
